@@ -129,4 +129,30 @@ theorem RefDomain.toStatement {env : Env} {d : Draft} {base : List (Str × Json)
     (h : RefDomain env d base D) : RefDomain_statement env d base D :=
   ⟨h.kind, h.side, h.ident, h.shape, h.ref⟩
 
+/-- **The domain, side conditions read locally** (`RefDomain` asks `numSafe s` and `typesKnown d s` of
+    every member, which inspect every key spelled `multipleOf`/`divisibleBy`/`type`/`disallow` at ANY
+    depth — also where it is a property NAME, as in every bundled metaschema
+    (`"properties": {"multipleOf": {…}}`) — so no `RefDomain` contains a metaschema; the subschemas are
+    members of the domain themselves, so it suffices that each member's OWN members are fine).
+    Every `RefDomain` is a `RefDomainL` (JS.Proofs.ValidRef `RefDomainL.of`). -/
+structure RefDomainL (env : Env) (d : Draft) (base : List (Str × Json)) (D : Str → Json → Bool) : Prop where
+  kind : ∀ top s, D top s = true → s.isObj = true ∨ ((d = .d6 ∨ d = .d7) ∧ ∃ b, s = .bool b)
+  /-- distinct keys (at every depth) -/
+  wf : ∀ top s, D top s = true → WF s = true
+  /-- the member's own `multipleOf`/`divisibleBy` operand is an integer in `1 … 2^53` -/
+  nsl : ∀ top kvs, D top (.obj kvs) = true → ∀ k v, (k, v) ∈ kvs → nsMember k v = true
+  /-- (draft 3) the member's own `type`/`disallow` names are known -/
+  tkl : ∀ top kvs, D top (.obj kvs) = true → ∀ k v, (k, v) ∈ kvs → tkMember d k v = true
+  ident : ∀ top kvs, D top (.obj kvs) = true →
+    (match lookupJ (if (d = .d6 || d = .d7) then "$id" else "id") kvs with | some v => isStrJ v | none => true) = true
+    ∧ ∀ id, idOf d kvs = some id → (env.urljoin top id).isSome = true
+  shape : ∀ top kvs, D top (.obj kvs) = true → lookupJ "$ref" kvs = none →
+    kvs.all (shapeClause d (D (baseInside env d top kvs))) = true
+  ref : ∀ top kvs r, D top (.obj kvs) = true → lookupJ "$ref" kvs = some r →
+    ∃ rs url t, r = .str rs ∧ designated env base top rs = some (url, t)
+      ∧ env.urljoin top url = some url ∧ D url t = true
+  req3 : d = .d3 → ∀ top kvs, D top (.obj kvs) = true →
+    ∀ r, lookupJ "required" kvs = some r → isBoolV r = true
+
+
 end JS.Spec
